@@ -80,6 +80,10 @@ impl ReadVolatile for ScriptedReader {
         buf: &mut VolatileSlice<B>,
     ) -> Result<usize, vm_memory::VolatileMemoryError> {
         self.calls += 1;
+        if self.calls > 5000 {
+            // a transfer that never ends is data (C07 / C14), not a harness failure
+            panic!("watchdog: the stream was called 5000 times for one transfer (no progress)");
+        }
         let n = match self.script.pop_front().unwrap_or(Beh::Full) {
             Beh::Full => buf.len(),
             Beh::Short(k) => k.min(buf.len()),
@@ -100,6 +104,9 @@ impl WriteVolatile for ScriptedWriter {
         buf: &VolatileSlice<B>,
     ) -> Result<usize, vm_memory::VolatileMemoryError> {
         self.calls += 1;
+        if self.calls > 5000 {
+            panic!("watchdog: the stream was called 5000 times for one transfer (no progress)");
+        }
         let n = match self.script.pop_front().unwrap_or(Beh::Full) {
             Beh::Full => buf.len(),
             Beh::Short(k) => k.min(buf.len()),
